@@ -237,6 +237,11 @@ pub trait HKind: 'static {
         0
     }
     fn set_order(mref: &MRef<Self>, order: &[u32]);
+    /// `Manager::reorder(|m| { f op g (edge level, dropped); set_var_order(m, order) })`; kinds without an
+    /// edge-level Boolean operator just reorder
+    fn set_order_with_inner_op(mref: &MRef<Self>, order: &[u32], _f: &Self::F, _g: &Self::F) {
+        Self::set_order(mref, order)
+    }
     fn probe_table(i: usize, n: u32) -> VT;
     /// DDDMP (ASCII) export of the given handles into a sink; the file content is C15's business,
     /// here only the effect on the manager (reference counts) matters
@@ -316,6 +321,21 @@ macro_rules! bool_kind {
             }
             fn set_order(mref: &MRef<Self>, order: &[u32]) {
                 <$ddk as dd::BoolKind>::set_order(mref, order)
+            }
+            fn set_order_with_inner_op(mref: &MRef<Self>, order: &[u32], f: &$f, g: &$f) {
+                mref.with_manager_exclusive(|m| {
+                    m.reorder(|m| {
+                        for _ in 0..2 {
+                            if let Ok(e) = <$f as BooleanFunction>::xor_edge(m, f.as_edge(m), g.as_edge(m)) {
+                                m.drop_edge(e);
+                            }
+                            if let Ok(e) = <$f as BooleanFunction>::and_edge(m, f.as_edge(m), g.as_edge(m)) {
+                                m.drop_edge(e);
+                            }
+                        }
+                        oxidd_reorder::set_var_order(m, order)
+                    })
+                })
             }
             export_impl!();
             fn probe_table(i: usize, n: u32) -> VT {
@@ -670,6 +690,9 @@ pub struct Cfg {
     /// every action is issued from inside `with_manager_shared` of another manager, so the calling
     /// thread's node-store state is bound to that other manager
     pub nested: bool,
+    /// the reordering actions compute A op B (edge-level, result released at once) inside the closure of
+    /// `Manager::reorder` before the levels are moved (legal: the closure gets the manager)
+    pub inner_op: bool,
 }
 
 impl Cfg {
@@ -678,16 +701,18 @@ impl Cfg {
         let s = s.trim_start_matches('n');
         let (n, rest) = s.split_once('c').unwrap();
         let (c, rest) = rest.split_once('t').unwrap();
+        let inner_op = rest.ends_with('r');
+        let rest = rest.trim_end_matches('r');
         let nested = rest.ends_with('x');
         let rest = rest.trim_end_matches('x');
         let (t, k) = match rest.split_once('k') {
             Some((t, k)) => (t, k.parse().unwrap()),
             None => (rest, 1 << 12),
         };
-        Cfg { nodes: n.parse().unwrap(), cache: c.parse().unwrap(), threads: t.parse().unwrap(), terms: k, nested }
+        Cfg { nodes: n.parse().unwrap(), cache: c.parse().unwrap(), threads: t.parse().unwrap(), terms: k, nested, inner_op }
     }
     pub fn show(&self) -> String {
-        format!("nodes={}, cache={}{}{}", self.nodes, self.cache, if self.terms != 1 << 12 { format!(", terminals={}", self.terms) } else { String::new() }, if self.nested { ", nested in another manager's session" } else { "" })
+        format!("nodes={}, cache={}{}{}", self.nodes, self.cache, if self.terms != 1 << 12 { format!(", terminals={}", self.terms) } else { String::new() }, if self.nested { ", nested in another manager's session" } else if self.inner_op { ", operation inside the reorder closure" } else { "" })
     }
 }
 
@@ -805,6 +830,7 @@ impl MState {
 pub struct IState<K: HKind> {
     pub mref: MRef<K>,
     pub regs: [Option<K::F>; 3],
+    pub inner_op: bool,
 }
 
 pub fn new_istate<K: HKind>(cfg: &Cfg) -> IState<K> {
@@ -819,7 +845,7 @@ pub fn new_istate<K: HKind>(cfg: &Cfg) -> IState<K> {
         Some(K::build(&mref, &t[1]).expect("harness: init")),
         Some(K::build(&mref, &t[2]).expect("harness: init")),
     ];
-    IState { mref, regs }
+    IState { mref, regs, inner_op: cfg.inner_op }
 }
 
 pub enum StepOut {
@@ -867,15 +893,20 @@ pub fn istep<K: HKind>(st: &mut IState<K>, ms: &MState, a: usize, gc_ret: &mut O
                 Err(_) => return StepOut::Oom,
             }
         }
-        5 => {
+        5 | 6 => {
             let mut o = ms.order.clone();
-            o.reverse();
-            K::set_order(&st.mref, &o);
-        }
-        6 => {
-            let mut o = ms.order.clone();
-            o.rotate_left(1);
-            K::set_order(&st.mref, &o);
+            if a - k == 5 {
+                o.reverse();
+            } else {
+                o.rotate_left(1);
+            }
+            // two live registers as operands of the operation inside the reorder closure
+            let live: Vec<&K::F> = st.regs.iter().flatten().collect();
+            if st.inner_op && live.len() >= 2 {
+                K::set_order_with_inner_op(&st.mref, &o, live[0], live[1]);
+            } else {
+                K::set_order(&st.mref, &o);
+            }
         }
         7 => {
             let f = st.regs[2].take();
